@@ -55,6 +55,8 @@ def cells(tier):
         out.append({'edge': edge, 'queue': 'queue', 'chain': 'rcpt', 'n': n,
                     'pool': 1})
         out.append({'edge': edge, 'queue': 'proxy', 'n': n})
+        # the same recipient address given twice
+        out.append({'edge': edge, 'queue': 'proxy', 'n': 3, 'dup': 1})
     return out
 
 
@@ -204,6 +206,10 @@ class ScriptedProxyRelay(object):
         self.done_at = qc.now()
         if kind == 5:
             return res
+        # a mapping has one entry per address: for an address listed twice
+        # the relay reports the later result
+        eff = dict(zip(envelope.recipients, self.results))
+        self.results = [eff[r] for r in envelope.recipients]
         return dict(zip(envelope.recipients, res))
 
 
@@ -213,6 +219,8 @@ def run(cell):
     qc.patch_env()
     n = cell['n']
     rcpts = RCPTS[:n]
+    if cell.get('dup'):
+        rcpts = [RCPTS[0], RCPTS[1], RCPTS[0]]
     info = dict(edge=cell['edge'], queue=cell['queue'],
                 chain=cell.get('chain'))
     if cell['queue'] == 'proxy':
